@@ -1062,6 +1062,52 @@ pub fn scale(out_dir: &str, thorough: bool, seed: u64) -> i32 {
         let how_name = ["reserve", "insert", "push_str"][how];
         recs.push(json!({"k":"grow","start":how_name,"len":len,"add":add,"cap1":len,"cap2":s.capacity(),"dA":st.d_a,"dR":st.d_r}));
     }
+    // ---- growth out of a roomy buffer: a sole owner with kilobytes of reserved (or left-over) room and a short text asks
+    // for more than the room; then uses what it was promised
+    for (cap, textlen, cut) in [(4096usize, 10usize, false), (8192, 28, false), (8192, 1024, false), (65536, 100, false), (1 << 20, 5000, false), (6000, 40, true), (70000, 0, true)] {
+        for how in ["reserve", "push_str", "insert"] {
+            for over in [1usize, 1000, cap] {
+                let text = "r".repeat(textlen);
+                let mut s = if cut {
+                    let mut s = LeanString::from("r".repeat(cap).as_str());
+                    s.truncate(textlen);
+                    s
+                } else {
+                    let mut s = LeanString::with_capacity(cap);
+                    s.push_str(&text);
+                    s
+                };
+                let mut std = text.clone();
+                let cap1 = s.capacity();
+                let add = cap1 - textlen + over;
+                let before = shim::begin_call(&[]);
+                let r = std::panic::catch_unwind(std::panic::AssertUnwindSafe(|| match how {
+                    "reserve" => s.reserve(add),
+                    "insert" => s.insert_str(textlen / 2, &"y".repeat(add)),
+                    _ => s.push_str(&"z".repeat(add)),
+                }));
+                let st = shim::end_call(before);
+                match how {
+                    "reserve" => {}
+                    "insert" => std.insert_str(textlen / 2, &"y".repeat(add)),
+                    _ => std.push_str(&"z".repeat(add)),
+                }
+                recs.push(json!({"k":"grow","start":format!("roomy-{how}"),"len":textlen,"add":add,"cap1":cap1,"cap2":s.capacity(),"dA":st.d_a,"dR":st.d_r}));
+                recs.push(json!({"k":"bigop","op":format!("roomy-{how} cap {cap1} len {textlen} +{add}"),"teq":r.is_ok() && s.as_str() == std,"len2":s.len(),"explen":std.len(),"cap2":s.capacity(),
+                    "resok":s.capacity() >= textlen + add,"fits":false,"dA":st.d_a,"dR":st.d_r,"sameptr":true,"others":true}));
+                if how == "reserve" && r.is_ok() {
+                    // the promise is used: an append of exactly the reserved amount neither allocates nor moves the text
+                    let (ptr, capb) = (s.as_ptr() as usize, s.capacity());
+                    let before = shim::begin_call(&[]);
+                    let r2 = std::panic::catch_unwind(std::panic::AssertUnwindSafe(|| s.push_str(&"w".repeat(add))));
+                    let st = shim::end_call(before);
+                    std.push_str(&"w".repeat(add));
+                    recs.push(json!({"k":"bigop","op":format!("roomy-use cap {capb} +{add}"),"teq":r2.is_ok() && s.as_str() == std,"len2":s.len(),"explen":std.len(),"cap2":s.capacity(),
+                        "resok":s.capacity() == capb,"fits":true,"dA":st.d_a,"dR":st.d_r,"sameptr":ptr == s.as_ptr() as usize,"others":true}));
+                }
+            }
+        }
+    }
     // ---- the growth rule is integer arithmetic at every length: lengths around 2^23/1.5, 2^24/1.5, 2^24, 2^25 (where a
     // detour through f32 / f64 mantissas, or a narrower integer, starts to round), in every residue class mod 4 and mod 3
     for base in [5_592_405usize, 11_184_808, (1 << 24) - 2, (1 << 24) + (1 << 23) - 1, (1 << 25) + 1] {
